@@ -58,6 +58,17 @@ func (pr *printer) probe(what, expr string) string {
 	return fmt.Sprintf("rt.Arg(h, %d, %s)", k, expr)
 }
 
+// probeAlways is a numbered probe on an operand inside an argument; when the
+// program does not wrap its arguments it is the bare expression.
+func (pr *printer) probeAlways(what, expr string) string {
+	if !pr.wrap {
+		return expr
+	}
+	k := len(pr.probes)
+	pr.probes = append(pr.probes, ProbeInfo{What: what})
+	return fmt.Sprintf("rt.Arg(h, %d, %s)", k, expr)
+}
+
 // fnProbe wraps a user function expression (predicate, parallel task, slice /
 // map / End function) in an argument probe in a third of the places: those
 // expressions, too, are evaluated once, in order, before anything runs.
@@ -81,6 +92,8 @@ func (pr *printer) mk(ts []TypeSpec, i int) string {
 		return "rt.Mk_" + BasicNames[ts[i].X]
 	case TBytes:
 		return "rt.Mk_bytes"
+	case TFuncLit:
+		return "rt.Mk_func"
 	case TParam:
 		return fmt.Sprintf("G%d", i) // conversion to the type parameter
 	}
@@ -95,6 +108,8 @@ func (pr *printer) un(ts []TypeSpec, i int) string {
 		return "rt.Un_" + BasicNames[ts[i].X]
 	case TBytes:
 		return "rt.Un_bytes"
+	case TFuncLit:
+		return "rt.Un_func"
 	case TParam:
 		return "uint64"
 	}
@@ -127,6 +142,8 @@ func (pr *printer) typeStr(ts []TypeSpec, i int) string {
 		return fmt.Sprintf("struct {\n\tV uint64\n\tF%d bool\n}", i)
 	case TBytes:
 		return "[]byte"
+	case TFuncLit:
+		return "func() uint64"
 	}
 	panic("type kind")
 }
@@ -148,7 +165,7 @@ func (pr *printer) declType(ts []TypeSpec, i int) {
 	n := pr.tname(i)
 	w := func(f string, a ...any) { fmt.Fprintf(&pr.b, f, a...) }
 	switch ts[i].Kind {
-	case TOther, TBasic, TBytes:
+	case TOther, TBasic, TBytes, TFuncLit:
 		return
 	case TAnon:
 		w("func mk%s(x uint64) %s { return %s{V: x} }\nfunc un%s(v %s) uint64 { return v.V }\n", n, pr.typeStr(ts, i), pr.typeStr(ts, i), n, pr.typeStr(ts, i))
@@ -251,7 +268,28 @@ func (pr *printer) flowTaskFunc(f *FlowP, t *TaskP) string {
 		fmt.Fprintf(&pr.b, "func %s%s {\n\th := rt.HOf(ctx)\n%s}\n", name, sig, body("h"))
 		return name
 	}
-	return "func" + sig + " {\n" + body("h") + "}"
+	lit := "func" + sig + " {\n" + body("h") + "}"
+	if t.ID%4 == 2 && !pr.p.ModifierOK {
+		// the same function seen through a function type that does not name its parameters
+		// (a value of a named handler type, the result of a middleware): it still reads them all
+		var ptypes []string
+		if t.Ctx {
+			ptypes = append(ptypes, "context.Context")
+		}
+		for _, in := range t.In {
+			ptypes = append(ptypes, pr.typeStrIn(f.Types, in))
+		}
+		usig := "(" + strings.Join(ptypes, ", ") + ")"
+		switch len(rets) {
+		case 0:
+		case 1:
+			usig += " " + rets[0]
+		default:
+			usig += " (" + strings.Join(rets, ", ") + ")"
+		}
+		return "(func" + usig + ")(" + lit + ")"
+	}
+	return lit
 }
 
 // auxTaskFunc writes the task's function into the aux package. Types of the
@@ -342,7 +380,19 @@ func (pr *printer) predFunc(f *FlowP, t *TaskP) string {
 	if len(args) > 0 {
 		c += ", " + strings.Join(args, ", ")
 	}
-	return "func(" + strings.Join(params, ", ") + ") bool { return " + c + ") }"
+	lit := "func(" + strings.Join(params, ", ") + ") bool { return " + c + ") }"
+	if t.ID%4 == 1 && !pr.p.ModifierOK {
+		// seen through a function type with unnamed parameters
+		var ptypes []string
+		if t.Pred.Ctx {
+			ptypes = append(ptypes, "context.Context")
+		}
+		for _, in := range t.Pred.In {
+			ptypes = append(ptypes, pr.typeStrIn(f.Types, in))
+		}
+		return "(func(" + strings.Join(ptypes, ", ") + ") bool)(" + lit + ")"
+	}
+	return lit
 }
 
 func emitterOpts(pr *printer, n int, nest, shared, slice, next bool) []string {
@@ -493,9 +543,26 @@ func (pr *printer) flow(f *FlowP) string {
 		}
 		fmt.Fprintf(&fb, "\t%s := %s(p[%d])\n", pname[t], pr.mk(f.Types, t), k)
 	}
+	// resIdx: the Results target is an element of an array, and its index is an expression
+	// (evaluated, like every operand of a directive argument, with the arguments)
+	resIdx := func(k int) bool {
+		return !pr.p.ModifierOK && f.Types[f.Results[k]].Kind != TOther && (uint64(f.OptSeed)>>9+uint64(k))%5 == 0
+	}
+	resVar := func(k int) string {
+		if resIdx(k) {
+			return fmt.Sprintf("ra%d[0]", k)
+		}
+		return fmt.Sprintf("r%d", k)
+	}
 	for k, t := range f.Results {
+		if resIdx(k) {
+			fmt.Fprintf(&fb, "\tra%d := [1]%s{%s(%d)}\n", k, pr.typeStr(f.Types, t), pr.mk(f.Types, t), Sentinel)
+			continue
+		}
 		fmt.Fprintf(&fb, "\tr%d := %s(%d)\n", k, pr.mk(f.Types, t), Sentinel)
 	}
+	// mutPtr: the bare read of the MutArg variable goes through a pointer to it
+	mutPtr := f.MutArg && (uint64(f.OptSeed)>>13)%2 == 0
 	// statements before / after the directive that its options ask for
 	var pre, post strings.Builder
 	// options, in shuffled order
@@ -517,7 +584,12 @@ func (pr *printer) flow(f *FlowP) string {
 						// a bare read of a variable that the next argument overwrites
 						pr.mutDone = true
 						pr.nargs++
-						a = append(a, pname[t])
+						if mutPtr {
+							fmt.Fprintf(&pre, "\t%sPtr := &%s\n", pname[t], pname[t])
+							a = append(a, "*"+pname[t]+"Ptr")
+						} else {
+							a = append(a, pname[t])
+						}
 						pr.mutVar, pr.mutNew = pname[t], fmt.Sprintf("%s(%d)", pr.mk(f.Types, t), MutVal)
 						continue
 					}
@@ -541,6 +613,11 @@ func (pr *printer) flow(f *FlowP) string {
 			items = append(items, renderItem{render: func() string {
 				var a []string
 				for k := part[0]; k < part[1]; k++ {
+					if resIdx(k) {
+						pr.nargs++
+						a = append(a, fmt.Sprintf("&ra%d[%s]", k, pr.probeAlways("result-index", "0")))
+						continue
+					}
 					a = append(a, pr.probe("result", fmt.Sprintf("&r%d", k)))
 				}
 				return "cff.Results(" + strings.Join(a, ", ") + ")"
@@ -651,7 +728,7 @@ func (pr *printer) flow(f *FlowP) string {
 		if k > 0 {
 			fb.WriteString(", ")
 		}
-		fmt.Fprintf(&fb, "%s(r%d)", pr.un(f.Types, t), k)
+		fmt.Fprintf(&fb, "%s(%s)", pr.un(f.Types, t), resVar(k))
 	}
 	fb.WriteString("}, err\n}\n")
 	return fb.String()
